@@ -45,12 +45,12 @@ pub enum TxItem {
     G(GroupAns),
 }
 
-fn sh(x: &H) -> String {
+pub(crate) fn sh(x: &H) -> String {
     vbase::hex(&x[..5])
 }
 
 impl CellAns {
-    fn of(c: &Cell, with_data: bool) -> CellAns {
+    pub(crate) fn of(c: &Cell, with_data: bool) -> CellAns {
         CellAns {
             block_number: c.block_number,
             tx_index: c.tx_index,
@@ -60,7 +60,7 @@ impl CellAns {
             data: if with_data { Some(c.data.clone()) } else { None },
         }
     }
-    fn show(&self) -> String {
+    pub(crate) fn show(&self) -> String {
         let out = packed::CellOutput::from_slice(&self.output).ok();
         let (cap, lock, ty) = match &out {
             Some(o) => {
@@ -91,7 +91,7 @@ impl CellAns {
 }
 
 impl TxAns {
-    fn of(e: &Ev) -> TxAns {
+    pub(crate) fn of(e: &Ev) -> TxAns {
         TxAns {
             block_number: e.block_number,
             tx_index: e.tx_index,
@@ -100,7 +100,7 @@ impl TxAns {
             tx_hash: e.tx_hash,
         }
     }
-    fn show(&self) -> String {
+    pub(crate) fn show(&self) -> String {
         format!(
             "#{}/tx{} {} {}[{}]",
             self.block_number,
@@ -113,7 +113,7 @@ impl TxAns {
 }
 
 impl TxItem {
-    fn show(&self) -> String {
+    pub(crate) fn show(&self) -> String {
         match self {
             TxItem::U(t) => t.show(),
             TxItem::G(g) => format!(
@@ -127,7 +127,7 @@ impl TxItem {
     }
 }
 
-fn show_list<T>(v: &[T], f: impl Fn(&T) -> String) -> Value {
+pub(crate) fn show_list<T>(v: &[T], f: impl Fn(&T) -> String) -> Value {
     let mut out: Vec<String> = v.iter().take(16).map(&f).collect();
     if v.len() > 16 {
         out.push(format!("... {} in total", v.len()));
@@ -210,7 +210,7 @@ pub struct Ctx<'a> {
     pub assert: bool,
 }
 
-fn tag(sk: &SK) -> String {
+pub(crate) fn tag(sk: &SK) -> String {
     let mode = sk.mode.map(|m| m.name()).unwrap_or("default");
     let mut s = format!("{}.{}", if sk.is_lock { "lock" } else { "type" }, mode);
     if let Some(f) = &sk.filter {
